@@ -335,19 +335,19 @@ def adapter_selections(summ, pkg=None):
     and a lookup table built from the rows (`{name: adapter_cls for name, _, adapter_cls in ADAPTERS}[key](...)`).
     Yields dicts: event, form ('loop' | 'table'), elem (the row term), key (table form: the lookup key; the dict is
     keyed by column `keycol`), loop id."""
-    from sa.sym import conjuncts, walk
+    from sa.sym import NO_MATCH, conjuncts, walk
     pkg = pkg or AOEF_PKG
     table = ("global", f"{pkg}:ADAPTERS", "assign")
     out = []
     for c in summ.calls:
         f = c.term[1]
         # next() form: next((row[2] for row in ADAPTERS if <test>), None)(...)
-        if f[0] == "call" and f[1] == ("builtin", "next") and len(f[2]) == 2 and f[2][1] == ("const", None) and f[2][0][0] == "comp" \
+        if f[0] == "call" and f[1] == ("builtin", "next") and len(f[2]) == 2 and f[2][1] in (("const", None), NO_MATCH) and f[2][0][0] == "comp" \
                 and f[2][0][1] == "gen" and len(f[2][0][3]) == 1 and f[2][0][3][0][1] == table:
             lid, _, conds = f[2][0][3][0]
             if f[2][0][2] == ("sub", ("elem", lid), ("const", 2)):
                 out.append({"event": c, "form": "next", "elem": ("elem", lid), "loop": lid, "conds": list(conds), "default_guard":
-                            ("cmp", "isnot", f, ("const", None)) in conjuncts(c.live)})
+                            ("cmp", "isnot", f, f[2][1]) in conjuncts(c.live)})
             continue
         # table form read with .get(key): None for a name that is not in the table -- the construction must be guarded against it
         if f[0] == "call" and f[1][0] == "attr" and f[1][2] == "get" and len(f[2]) in (1, 2) and f[2][1:] in ((), (("const", None),)) and not f[3]:
